@@ -35,7 +35,8 @@ ASSUMPTIONS = ["metamorphic relation only (no reference solver needed to raise t
 
 
 def generate(rnd, tier):
-    script, sig, tg = gen.gen_script(rnd, tier, engines=False, tracking=set(), incremental=True, queries=False,
+    keys = ["QF_IDL", "QF_RDL", "QF_UFIDL", "QF_UFRDL"] if rnd.random() < 0.35 else None
+    script, sig, tg = gen.gen_script(rnd, tier, logic_keys=keys, engines=False, tracking=set(), incremental=True, queries=False,
                                      named=0.3 if rnd.random() < 0.3 else 0.0)
     script["options"] = []
     has_stack = any(c[0] in ("push", "pop") for c in script["cmds"])
